@@ -175,10 +175,20 @@ func disturbDecoder() {
 		bad[0], bad[1], bad[2], bad[3] = byte(n>>24), byte(n>>16), byte(n>>8), byte(n)
 		disturbers = append(disturbers, bad)
 	}
-	for _, d := range disturbers {
-		try(func() { hsms.Parse(d) })
+	// (every event would be affordable on the library as it is - 4 s for 12 000 events - but not on a decoder that a
+	// change has made slow: one event in four gets the disturbers, every sixteenth all of them)
+	disturbCalls++
+	if disturbCalls%4 != 0 {
+		return
+	}
+	for k, d := range disturbers {
+		if disturbCalls%16 == 0 || k == int(disturbCalls/4)%len(disturbers) {
+			try(func() { hsms.Parse(d) })
+		}
 	}
 }
+
+var disturbCalls int
 
 func typeOfMsg(m ast.HSMSMessage) (t string) {
 	if p, _ := try(func() { t = m.Type() }); p {
